@@ -1231,15 +1231,18 @@ impl store::Cob for Patch {
         repo: &R,
     ) -> Result<(), Error> {
         debug_assert!(!self.timeline.contains(&op.id));
-        self.timeline.push(op.id);
 
         let doc = op.identity_doc(repo)?.ok_or(Error::MissingIdentity)?;
         let concurrent = concurrent.into_iter().collect::<Vec<_>>();
+        // Nb. The actions are applied to a copy of the patch, so that an operation which is
+        // rejected half-way through doesn't partially take effect.
+        let mut patch = self.clone();
+        patch.timeline.push(op.id);
 
         for action in op.actions {
             log::trace!(target: "patch", "Applying {} {action:?}", op.id);
 
-            if let Err(e) = self.op_action(
+            if let Err(e) = patch.op_action(
                 action,
                 op.id,
                 op.author,
@@ -1252,6 +1255,8 @@ impl store::Cob for Patch {
                 return Err(e);
             }
         }
+        *self = patch;
+
         Ok(())
     }
 }
